@@ -260,6 +260,77 @@ def decoder_loops_complete(repo: Repo, rep, rule: str, only: tuple[str, ...] | N
     return n
 
 
+def item_generators_exhaustive(repo: Repo, rep, rule: str) -> int:
+    """The same generators, *evaluated* (sa/minipy.py) on byte strings built from the PS3.8 item layouts: 0..3
+    items with payloads of 0, 1, 2 and 7 bytes each. What comes out must be exactly the items that went in -
+    same number, same order, same bytes. This decides what the per-iteration rule cannot: a loop that stops
+    before the last item (a bound computed from a minimum item size), one that skips or repeats an item, or
+    one whose offset arithmetic drifts. The layouts are PS3.8's: variable items / sub-items are
+    type(1) reserved(1) length(2) data; a PDV item is length(4) context-id(1) data; a related general SOP
+    class entry is length(2) uid."""
+    import itertools
+    import struct
+
+    from .alpha import functions_of
+    from .minipy import Interp, Raised, Unsupported
+
+    u1, u2, u4 = struct.Struct(">B"), struct.Struct(">H"), struct.Struct(">I")
+    g = {"UNPACK_UCHAR": u1.unpack, "UNPACK_UINT2": u2.unpack, "UNPACK_UINT4": u4.unpack, "UID": lambda x: x, "decode_bytes": lambda b: b.decode("ascii"), "bytes": bytes}
+    payloads = [b"", b"\x21", b"\x31\x32", b"1.2.840"]
+
+    def build(kind, items):
+        out, want = b"", []
+        for k, p in enumerate(items):
+            if kind == "item":
+                t = 0x10 + k
+                whole = bytes([t, 0]) + u2.pack(len(p)) + p
+                out += whole
+                want.append((t, whole))
+            elif kind == "pdv":
+                cx = 2 * k + 1
+                out += u4.pack(len(p) + 1) + bytes([cx]) + p
+                want.append((cx, p))
+            else:
+                out += u2.pack(len(p)) + p
+                want.append(p.decode("ascii"))
+        return out, want
+
+    n = 0
+    for short in ("pdu", "pdu_items"):
+        m = repo.mod(short)
+        for q, fn in functions_of(m.tree):
+            if q.split(".")[-1].split("#")[0] != "_generate_items":
+                continue
+            cls = q.split(".")[0]
+            kind = "pdv" if cls == "P_DATA_TF" else "uid" if "RelatedGeneral" in cls or "CommonExtended" in cls else "item"
+            it = Interp(g)
+            params = [a.arg for a in fn.args.args]
+            bad = None
+            pts = 0
+            try:
+                for cnt in range(0, 4):
+                    for items in itertools.product(payloads if kind != "uid" else payloads[1:], repeat=cnt):
+                        stream, want = build(kind, items)
+                        it.steps = 0
+                        pts += 1
+                        try:
+                            got = it.call_function(fn, dict(zip(params[-1:], [stream])))
+                        except Raised as r:
+                            got = f"raises {r.kind}"
+                        if got != want and bad is None:
+                            bad = (items, got, want)
+            except Unsupported as exc:
+                rep.defer(f"{short}.{q}: the item generator could not be evaluated ({exc})")
+                continue
+            n += 1
+            if bad is None:
+                rep.ok(rule, f"{short}.{q} :: {pts} byte strings of 0..3 items", "every item comes out once, in order, with its bytes")
+            else:
+                items, got, want = bad
+                rep.fail(rule, f"{short}.{q}", f"{len(items)} item(s) with payload lengths {[len(p) for p in items]} -> {len(got) if isinstance(got, list) else got} yielded", f"a byte string holding {len(items)} item(s) with payloads of {[len(p) for p in items]} bytes must give back exactly those items; the generator gives {got if not isinstance(got, list) else str(len(got)) + ' item(s)'}: an item the peer sent is dropped, repeated or cut (a trailing PDV of 6 bytes - an empty last fragment - carries the 'last' bit of a message; a dropped negotiation item changes what was proposed)", mod=m, node=fn)
+    return n
+
+
 def contextmanagers_yield_once(repo: Repo, rep, rule: str) -> int:
     """A generator decorated with @contextmanager must yield exactly once on every path that does not
     raise: a path that returns before the yield makes `with f(..):` raise RuntimeError("generator didn't
@@ -292,6 +363,26 @@ def contextmanagers_yield_once(repo: Repo, rep, rule: str) -> int:
 
 
 IO_CALLS = ("open", "dcmread", "read_dataset", "read", "stat", "exists", "listdir", "getsize", "recv", "get")
+
+
+def no_memoised_state(repo: Repo, rep, rule: str, modules: tuple[str, ...], consequence: str) -> int:
+    """A memoising decorator (cached_property, lru_cache, cache) on a member of a mutable value class: the
+    member is computed from fields that decode() / from_primitive() / the setters assign later, so a second
+    read returns what the first one saw. 0 expected today; a memoised member is accepted only when it reads
+    no attribute of `self` at all."""
+    n = 0
+    for mname in modules:
+        m = repo.mod(mname)
+        for fn in [f for f in ast.walk(m.tree) if isinstance(f, ast.FunctionDef)]:
+            n += 1
+            for d in fn.decorator_list:
+                dn = norm(d.func if isinstance(d, ast.Call) else d).split(".")[-1]
+                if dn not in ("lru_cache", "cache", "cached_property"):
+                    continue
+                reads = [a for a in ast.walk(fn) if isinstance(a, ast.Attribute) and norm(a.value) == "self"]
+                if reads or dn == "cached_property":
+                    rep.fail(rule, f"{mname}.{qualname(fn) or fn.name}", fn, f"`{fn.name}` is memoised (@{dn}) but computed from {('self.' + reads[0].attr) if reads else 'the object'}, which is assigned after construction: {consequence}", mod=m, node=d)
+    return n
 
 
 def no_memoised_io(repo: Repo, rep, rule: str) -> int:
